@@ -553,7 +553,24 @@ func (c *Ctx) checkGroupOrder() {
 		for i, e := range t.Events {
 			if e.Kind == EvCall && e.Callee != nil && (strings.Contains(e.Callee.String(), "slices.SortFunc") || strings.Contains(e.Callee.String(), "sort.Slice") || strings.Contains(e.Callee.String(), "slices.SortStableFunc")) {
 				// the sorted slice is the one returned
-				if len(e.Args) >= 2 && e.Args[0].root().Key() == t.Ret[0].root().Key() {
+				sameSlice := len(e.Args) >= 2 && e.Args[0].strip().root().Key() == t.Ret[0].root().Key()
+				if !sameSlice && len(e.Args) >= 2 {
+					// the slice variable is captured by the comparator (sort.Slice): it lives in a cell of its own, the value
+					// sorted is what was stored there and the value returned is read back from it
+					ret, arg := t.Ret[0].strip(), e.Args[0].strip()
+					if ret.Kind == KInit && ret.Args[0].Kind == KAlloc {
+						cell := ret.Args[0]
+						if arg.Kind == KInit && arg.Args[0].Key() == cell.Key() {
+							sameSlice = true // the variable itself, read before and after the call
+						}
+						for _, y := range t.Events {
+							if y.Kind == EvStore && y.Addr.Key() == cell.Key() && y.Val.root().Key() == arg.root().Key() {
+								sameSlice = true
+							}
+						}
+					}
+				}
+				if sameSlice {
 					sorted = true
 					if cl := e.Args[1]; cl.Kind == KClosure || cl.Kind == KFunc {
 						cmp = cl.Ref.(*ssa.Function)
@@ -599,7 +616,19 @@ func (c *Ctx) checkGroupOrder() {
 			}
 			r := t.Ret[0]
 			isIdx := func(s *Sym, p *Sym) bool {
-				return s.Kind == KField && sameField(s.Field, idxF) && s.Args[0].Key() == p.Key()
+				if s.Kind == KField && sameField(s.Field, idxF) && s.Args[0].Key() == p.Key() {
+					return true
+				}
+				// sort.Slice form: the parameters are positions, the operands are ms[a].index and ms[b].index
+				if s.Kind == KInit && s.Args[0].isFieldAddrOf(idxF) {
+					if el := s.Args[0].Args[0]; el.Kind == KIndexAddr && el.Args[1].Key() == p.Key() {
+						return true
+					}
+				}
+				if s.Kind == KField && sameField(s.Field, idxF) && s.Args[0].Kind == KInit && s.Args[0].Args[0].Kind == KIndexAddr && s.Args[0].Args[0].Args[1].Key() == p.Key() {
+					return true
+				}
+				return false
 			}
 			a, b := t.Params[0], t.Params[1]
 			if !(r.Kind == KBin && ((r.Op == token.LSS && isIdx(r.Args[0], a) && isIdx(r.Args[1], b)) || (r.Op == token.GTR && isIdx(r.Args[0], b) && isIdx(r.Args[1], a)))) {
